@@ -366,8 +366,36 @@ def replay(r):
 
 def replay_file(data):
     inp = data.get('input') or {}
+    if 'n_runs' in inp:
+        why = native_task_writes(inp['n_runs'], inp.get('compressed', False))
+        return dict(confirmed=bool(why), detail=why or 'the task writes its result file', input=inp)
     why = contract_native(inp['n_nodes'], inp['n_cores'], inp['n_inputs'], inp['trials'])
     return dict(confirmed=bool(why), detail=why or 'property holds on this input', input=inp)
+
+
+def native_task_writes(n_runs, compressed):
+    """the process target of run_parallel, called directly: its result file exists afterwards and holds n_runs trials per simulation"""
+    import io, contextlib, json, shutil, tempfile, os
+    from panqec.simulation import run_file
+    from panqec.utils import load_json
+    d = tempfile.mkdtemp(prefix='c14_')
+    try:
+        spec = {'ranges': {'label': 't', 'code': {'name': 'Toric2DCode', 'parameters': [{'L_x': 2, 'L_y': 2}]},
+                           'error_model': {'name': 'PauliErrorModel', 'parameters': {'r_x': 1 / 3, 'r_y': 1 / 3, 'r_z': 1 / 3}},
+                           'decoder': {'name': 'MatchingDecoder', 'parameters': {}}, 'error_rate': [0.1, 0.2]}}
+        inp = os.path.join(d, 'in.json'); json.dump(spec, open(inp, 'w'))
+        out = os.path.join(d, 'out.json' + ('.gz' if compressed else ''))
+        with contextlib.redirect_stdout(io.StringIO()), contextlib.redirect_stderr(io.StringIO()):
+            run_file(inp, out, n_runs, verbose=False)
+        if not os.path.exists(out):
+            return 'a task given %d trial(s) wrote no result file' % n_runs
+        data = load_json(out)
+        counts = [r_['results']['n_runs'] for r_ in data]
+        if counts != [n_runs, n_runs]:
+            return 'a task given %d trial(s) recorded %s trials for its two simulations' % (n_runs, counts)
+        return None
+    finally:
+        shutil.rmtree(d, ignore_errors=True)
 
 
 def bounded(tier, seed):
@@ -388,7 +416,14 @@ def bounded(tier, seed):
             samples.append(dict(n_nodes=n, n_cores=c, n_inputs=i, trials=tr, ok=why is None))
         if why and len(viol) < 5:
             viol.append(dict(obligation='C14.bounded', input=dict(n_nodes=n, n_cores=c, n_inputs=i, trials=tr), detail=why))
-    return dict(bound='n_nodes<=%d, n_cores<=%d, n_inputs<=%d, trials<=%d (quick: 1500 sampled grid points)' % lim,
+    # "a result file of its own": the task function that run_parallel starts (the real run_file) writes its result file for every trial count a task can be
+    # given - in particular for exactly one trial, the minimum the split hands out
+    for n_runs in (1, 2, 3):
+        for gz in (False, True):
+            why = native_task_writes(n_runs, gz); cases += 1
+            if why:
+                viol.append(dict(obligation='C14.bounded.task_file', input=dict(n_runs=n_runs, compressed=gz), detail=why))
+    return dict(bound='real run_file with 1, 2, 3 trials (plain / gzip); n_nodes<=%d, n_cores<=%d, n_inputs<=%d, trials<=%d (quick: 1500 sampled grid points)' % lim,
                 evaluations=cases, distinct_nontrivial=len(nontriv),
                 rule='grid of (n_nodes,n_cores,n_inputs,trials) through the real click callback with glob/Process/cpu_count stubbed; '
                      'non-trivial iff tasks do not divide evenly over inputs or trials not over tasks',
